@@ -353,7 +353,7 @@ pub fn for_each_grammar_string(thorough: bool, f: &mut dyn FnMut(&str)) {
   } else {
     segments(&["A", "C"], false)
   };
-  let seps = [",", ";", ";;", ",,", ";,"];
+  let seps = [",", ";", ";;", ",,", ";,", ",;"];
   for s in ["", ";", ";;;", ","] {
     f(s);
   }
@@ -441,7 +441,7 @@ pub fn c12_bounds(tier: &str) -> Value {
     "boundary_values": BOUNDARY,
     "single_field_deltas": "every delta of magnitude 0..2^20 in each of the five fields, both signs (column: positive only)",
     "grammar_strings": grammar_count(thorough),
-    "grammar": "1-/4-/5-field segments with fields from {A,C,D} plus one extended spelling (E, gA, gC, hA, /A, ggA); separators , ; ;; ,, ;, ; up to 3 segments; strings whose running values go negative are outside the domain and skipped (counted)",
+    "grammar": "1-/4-/5-field segments with fields from {A,C,D} plus one extended spelling (E, gA, gC, hA, /A, ggA); separators , ; ;; ,, ;, ,; ; up to 3 segments; strings whose running values go negative are outside the domain and skipped (counted)",
   })
 }
 
